@@ -22,13 +22,14 @@ cp $OUT/zz_seed_test.go $pdir/zz_seed_test.go
 demo_with=$(go test -vet=off -count=1 -run "TestSeeded" ./$pdir 2>&1 | tail -1 | awk '{print $1}')
 git checkout -q -- . ; 
 demo_without=$(go test -vet=off -count=1 -run "TestSeeded" ./$pdir 2>&1 | tail -1 | awk '{print $1}')
-cd /; git -C /repo worktree remove --force $WT
-# now our check
-git -C /repo apply $OUT/patch.diff
+# now our check, against the scratch worktree with the patch applied (never /repo itself)
+git apply $OUT/patch.diff
 cd /verif; t0=$(date +%s)
-timeout 1800 bin/gosym check $PROP quick > $OUT/check_output.txt 2>&1; rc=$?
+mkdir -p /tmp/seed_scratch_$NAME
+VERIF_SCRATCH=/tmp/seed_scratch_$NAME timeout 1500 bin/gosym check $PROP quick --repo $WT > $OUT/check_output.txt 2>&1; rc=$?
 t1=$(date +%s)
-git -C /repo checkout -- .
+rm -rf /tmp/seed_scratch_$NAME
+cd /; git -C /repo worktree remove --force $WT
 viol=$(grep -c '^VIOLATION' $OUT/check_output.txt)
 python3 - <<PY
 import json
